@@ -274,3 +274,41 @@ Proof.
         destruct (N.to_nat (c - (c0 + 1))); reflexivity.
       * replace (c0 + 1 <=? c) with false by (symmetry; apply N.leb_gt; nlia). reflexivity.
 Qed.
+
+(* ---- every column of the call ends with the source's keys, values and counts ----
+   A source column is well formed when no listed entry has count 0 and a column that does not count lists count 1. *)
+Definition wf_src (cf : ccfg) (src : scontent) : Prop :=
+  forall k v rc, lookup_src src k = Some (v, rc) -> rc <> 0 /\ (c_rc cf = false -> rc = 1).
+
+Definition mcol0 : mcol := {| m_sf := 0; m_df := 0; m_force := false |}.
+
+Lemma unselected_same_flags m : selected m = false -> m_df m = m_sf m.
+Proof.
+  unfold selected. intros H. apply orb_false_iff in H. destruct H as [_ H].
+  apply negb_false_iff in H. apply N.eqb_eq in H. symmetry. exact H.
+Qed.
+
+Lemma copied_column_is_migrated_column m src k :
+  selected m = false -> wf_src (cfg_of_flags (m_sf m)) src -> src_cell src k = migrated_col m src k.
+Proof.
+  intros Hs Hw. unfold src_cell, migrated_col, dcf. rewrite (unselected_same_flags m Hs).
+  destruct (lookup_src src k) as [[v rc]|] eqn:E; [|reflexivity].
+  destruct (Hw k v rc E) as [Hnz H1]. unfold expected.
+  destruct (N.eqb_spec rc 0) as [H0|_]; [contradiction|].
+  destruct (c_rc (cfg_of_flags (m_sf m))) eqn:Erc; [reflexivity|]. rewrite (H1 eq_refl). reflexivity.
+Qed.
+
+Theorem whole_call_uniform n cols srcs S' D' :
+  all_distinct srcs ->
+  (forall i, (i < length cols)%nat -> wf_src (cfg_of_flags (m_sf (nth i cols mcol0))) (nth i srcs [])) ->
+  migrate_driver n cols (length cols) false srcs (src_db srcs) = MgOk S' D' ->
+  forall c k, c < N.of_nat (length cols) ->
+  D' c k = migrated_col (nth (N.to_nat c) cols mcol0) (nth (N.to_nat c) srcs []) k.
+Proof.
+  intros Hd Hw H c k Hc. destruct (driver_copy_mode n cols srcs (src_db srcs) S' D' Hd H) as [_ HD].
+  rewrite HD, spec_db_nth. replace (0 <=? c) with true by (symmetry; apply N.leb_le; nlia).
+  replace (c <? 0 + N.of_nat (length cols)) with true by (symmetry; apply N.ltb_lt; nlia).
+  cbn [andb]. cbv zeta. rewrite N.sub_0_r. fold mcol0.
+  destruct (selected (nth (N.to_nat c) cols mcol0)) eqn:Es; [reflexivity|].
+  unfold src_db. apply copied_column_is_migrated_column; [exact Es|]. apply Hw. nlia.
+Qed.
